@@ -170,8 +170,15 @@ Definition ops_parse (p : bytes) : option (opsd * bytes) :=
 
 (* ------------------------------------------------------------------ literal data body *)
 Definition latin1_ok (t : list Z) : bool := forallb (fun c => (0 <=? c) && (c <? 256)) t.
-(* LiteralData.__bytearray__ after the header; None = ValueError / UnicodeEncodeError / OverflowError *)
+(* LiteralData.__bytearray__ after the header; None = ValueError / UnicodeEncodeError / OverflowError.
+   A time that does not fit four octets is refused (ValueError) *)
 Definition lit_body (l : litd) : option bytes :=
+  if (0 <=? l_format l) && (l_format l <? 256) && (Z.of_nat (length (l_name l)) <=? 255) && latin1_ok (l_name l)
+     && (0 <=? l_mtime l) && (l_mtime l <? 4294967296)
+  then Some ([l_format l] ++ [Z.of_nat (length (l_name l))] ++ l_name l ++ int_to_bytes (l_mtime l) 4 ++ l_data l)
+  else None.
+(* before the repair: int_to_bytes widens to five octets from 2106-02-07 on (kept for the refutation theorem) *)
+Definition lit_body_prefix (l : litd) : option bytes :=
   if (0 <=? l_format l) && (l_format l <? 256) && (Z.of_nat (length (l_name l)) <=? 255) && latin1_ok (l_name l)
      && (0 <=? l_mtime l)
   then Some ([l_format l] ++ [Z.of_nat (length (l_name l))] ++ l_name l ++ int_to_bytes (l_mtime l) 4 ++ l_data l)
@@ -189,10 +196,55 @@ Definition lit_parse (len : Z) (p : bytes) : option (litd * bytes) :=
   | _ => None
   end.
 
-(* LiteralData.contents / PGPMessage.message: 't' is decoded latin-1 (code point = octet), 'u' UTF-8, other raw *)
-Inductive view := VBytes (b : bytes) | VLatin1 (t : list Z) | VUtf8 (b : bytes).
+(* bytes.decode('utf-8') (strict): shortest form only, no surrogates, nothing above U+10FFFF; None = UnicodeDecodeError *)
+Definition cont (b : Z) : bool := (128 <=? b) && (b <? 192).
+Fixpoint utf8_decode (b : bytes) : option (list Z) :=
+  match b with
+  | [] => Some []
+  | b0 :: r =>
+    if b0 <? 128 then
+      (if 0 <=? b0 then option_map (cons b0) (utf8_decode r) else None)
+    else if b0 <? 194 then None
+    else if b0 <? 224 then
+      match r with
+      | b1 :: r1 =>
+        if cont b1 then option_map (cons ((b0 - 192) * 64 + (b1 - 128))) (utf8_decode r1) else None
+      | _ => None
+      end
+    else if b0 <? 240 then
+      match r with
+      | b1 :: b2 :: r2 =>
+        let c := (b0 - 224) * 4096 + (b1 - 128) * 64 + (b2 - 128) in
+        if cont b1 && cont b2 && (2048 <=? c) && negb ((55296 <=? c) && (c <? 57344))
+        then option_map (cons c) (utf8_decode r2) else None
+      | _ => None
+      end
+    else if b0 <? 245 then
+      match r with
+      | b1 :: b2 :: b3 :: r3 =>
+        let c := (b0 - 240) * 262144 + (b1 - 128) * 4096 + (b2 - 128) * 64 + (b3 - 128) in
+        if cont b1 && cont b2 && cont b3 && (65536 <=? c) && (c <? 1114112)
+        then option_map (cons c) (utf8_decode r3) else None
+      | _ => None
+      end
+    else None
+  end.
+
+(* LiteralData.contents / PGPMessage.message.  't': UTF-8 (what PGPMessage.new stores), latin-1 (code point = octet)
+   when the octets are not UTF-8 (other producers); 'u': UTF-8, VErr = UnicodeDecodeError; anything else: the octets *)
+Inductive view := VBytes (b : bytes) | VText (t : list Z) | VErr.
 Definition contents (l : litd) : view :=
-  if l_format l =? 116 then VLatin1 (l_data l) else if l_format l =? 117 then VUtf8 (l_data l) else VBytes (l_data l).
+  if l_format l =? 116 then
+    match utf8_decode (l_data l) with Some t => VText t | None => VText (l_data l) end
+  else if l_format l =? 117 then
+    match utf8_decode (l_data l) with Some t => VText t | None => VErr end
+  else VBytes (l_data l).
+(* before the repair: 't' always read as latin-1 (kept for the refutation theorem) *)
+Definition contents_prefix (l : litd) : view :=
+  if l_format l =? 116 then VText (l_data l)
+  else if l_format l =? 117 then
+    match utf8_decode (l_data l) with Some t => VText t | None => VErr end
+  else VBytes (l_data l).
 (* text_to_bytes: str.encode('utf-8') on code points *)
 Definition utf8_cp (c : Z) : bytes :=
   if c <? 128 then [c]
